@@ -129,7 +129,7 @@ class SrcState:
 
     __slots__ = ("sid", "items", "plan", "pos", "uses", "ended", "closed", "active", "overlap",
                  "faulted", "use_after_fault", "pull_after_end", "gen", "started", "use_after_close",
-                 "max_active", "log")
+                 "max_active", "log", "drop")
 
     def __init__(self, sid: Any, items: List[Any], plan: Plan = NOPLAN, log: bool = True):
         self.sid = sid
@@ -149,6 +149,7 @@ class SrcState:
         self.gen: Any = None  # async generator object for the async_gen flavour
         self.started = False
         self.log = log
+        self.drop = False  # forget served items (for retention measurements)
 
     # -- the part shared by sync and async flavours: one "use" of the source ----
     def begin(self) -> None:
@@ -172,6 +173,8 @@ class SrcState:
             item = self.items[self.pos]
             if self.log:
                 CTX.ev("pull", self.sid, self.pos)
+            if self.drop:
+                self.items[self.pos] = None
             self.pos += 1
             return item
         if self.ended:
